@@ -421,6 +421,15 @@ def correspondence(pid, streams, seed, tier, log, extra_cases=None):
             d = {'case': c, 'impl': i, 'model': mo, 'spec': spec, 'in_domain': bool(dom),
                  'kind': 'impl-vs-spec' if (ok and not spec_ok) else 'impl-vs-model'}
             (diffs if dom else drift).append(d)
+    # a disagreement that the case alone does not reproduce depends on the calls before it: keep a minimised history
+    index = {}
+    for j, c in enumerate(cases):
+        index.setdefault(c, j)
+    for d in diffs[:3]:
+        try:
+            d.update(find_history(cases[:index[d['case']]], d['case'], d['model'], d['spec']))
+        except Exception as e:       # the search is a convenience for the replay; never the reason a check fails
+            log.write('--- history search failed: %r\n' % (e,))
     # vm_compute slice: the extracted runner and Coq's own evaluation must agree
     k = 24 if tier == 'quick' else 150
     step = max(1, len(cases) // k)
@@ -474,6 +483,44 @@ RULE = ("cases are generated from one splitmix64 state seeded by VERIF_SEED (str
         "with ErrInvalidCode after computing the HMAC (early argument errors are counted as trivial)")
 
 
+def find_history(prefix, case, mo, spec, budget=28):
+    """If [case] alone agrees with the model but disagreed after [prefix], return {'history': minimal-ish sublist of
+    prefix after which it still disagrees} (delta debugging within a budget of harness runs); {} otherwise."""
+    def fails(hist):
+        out = run_impl(hist + [case])[-1]
+        return not (outcome_match(out, mo) and (spec == '-' or outcome_match(out, spec)))
+    if fails([]):
+        return {}
+    if not prefix or not fails(prefix):
+        return {'history_note': 'the case alone agrees with the model and the disagreement did not recur when the run was repeated'}
+    h, n, runs = list(prefix), 2, 2
+    while len(h) >= 2 and runs < budget:
+        size = (len(h) + n - 1) // n
+        chunks = [h[i:i + size] for i in range(0, len(h), size)]
+        reduced = False
+        for i in range(len(chunks)):
+            if runs >= budget:
+                break
+            runs += 1
+            if fails(chunks[i]):                                   # one chunk alone is enough
+                h, n, reduced = chunks[i], 2, True
+                break
+        if not reduced:
+            for i in range(len(chunks)):
+                if runs >= budget:
+                    break
+                comp = [x for k, ch in enumerate(chunks) if k != i for x in ch]
+                runs += 1
+                if fails(comp):
+                    h, n, reduced = comp, max(n - 1, 2), True
+                    break
+        if not reduced:
+            if n >= len(h):
+                break
+            n = min(len(h), 2 * n)
+    return {'history': h[-2000:], 'history_note': 'the case disagrees only after these earlier calls in the same process (%d harness runs spent minimising)' % runs}
+
+
 def write_replay(pid, n, payload):
     d = os.path.join(ROOT, 'replays')
     os.makedirs(d, exist_ok=True)
@@ -489,8 +536,13 @@ def do_replay(pid, path, log):
     if not case:
         print('replay file names a proof obligation / correspondence, not an input:', r.get('what'))
         return 0
-    impl = run_impl([case])[0]
+    hist = r.get('history') or []
+    impl = run_impl(hist + [case])[-1]
     model = run_model([case])[0]
+    if hist:
+        print('after %d earlier call(s) in the same process:' % len(hist))
+        for h in hist[:20]:
+            print('  ' + h[:200])
     print('case :', case)
     print('impl :', impl)
     print('model:', model)
